@@ -35,6 +35,22 @@ def spec(lr, alpha, beta, x, random_order):
     return [bool(ts >= B), bool((ts <= A) and not (ts >= B))], ts
 
 
+def sprt_call(S, *a, **k):
+    """sprt through the alarm guard; the returned conclusion is copied for the comparisons and then scribbled over in place, as a
+    client program may do with a list it was handed: later calls must not be affected (no shared result objects)"""
+    r = guarded(S.sprt, *a, **k)
+    if r[0] != "ok":
+        return r
+    dec, ts = r[1][0], r[1][1]
+    out = ("ok", (list(dec), ts))
+    try:
+        if isinstance(dec, list):
+            dec.append("scribbled"); dec[0] = not dec[0]; dec[1] = "x"
+    except Exception:  # noqa
+        pass
+    return out
+
+
 INF_R = Fr(10**30)      # stands for a likelihood ratio of +inf in the tables sent to the model (larger than every threshold used)
 
 
@@ -55,7 +71,7 @@ def run(ctx):
                     if n == 0 and not ro:
                         continue
                     x = list(x)
-                    r = guarded(S.sprt, lrf, float(al), float(be), x, ro)
+                    r = sprt_call(S, lrf, float(al), float(be), x, ro)
                     want = spec(lrf, float(al), float(be), x, ro)
                     key = ("bern", po, pa, al, be, tuple(x), ro)
                     ctx.count("bern-len=%d" % n)
@@ -102,7 +118,7 @@ def run(ctx):
         if ctx.rng.random() < 0.4:
             al = be = Fr(1, 20)
             lrf = lambda xx, po=po, pa=pa: S.bernoulli_lh_ratio(np.array(xx), float(po), float(pa)) if len(xx) else 1.0
-            rr = guarded(S.sprt, lrf, float(al), float(be), x, True, secs=120)
+            rr = sprt_call(S, lrf, float(al), float(be), x, True, secs=120)
             # exact first exit
             A, B = be / (1 - al), (1 - be) / al
             ratio = Fr(1); want = None; near = False
@@ -119,7 +135,8 @@ def run(ctx):
                                          "returned": str(rr[1:])[:120], "expected": [want[0], float(want[1])],
                                          "issue": "long sample: decision / ratio differ from the first-exit rule on exact prefix ratios"}, site="sprt")
     # ---- table look-up ratio functions (exact dyadics; thresholds exactly representable)
-    grids = [(Fr(1, 2), Fr(1, 4)), (Fr(1, 4), Fr(1, 2)), (Fr(1, 20), Fr(1, 20))]
+    grids = [(Fr(1, 2), Fr(1, 4)), (Fr(1, 4), Fr(1, 2)), (Fr(1, 20), Fr(1, 20)),
+             (Fr(1, 2**70), Fr(1, 4)), (Fr(1, 4), Fr(1, 2**70)), (Fr(1, 2**60), Fr(1, 2**60))]      # error rates far below machine epsilon are legal
     for _ in range(ctx.n(400, 6000)):
         al, be = ctx.rng.choice(grids)
         A, B = be / (1 - al), (1 - be) / al
@@ -147,7 +164,7 @@ def run(ctx):
         tabf = [float("inf") if v == INF_R else float(v) for v in tab]
         def lrf(xx, tabf=tabf, calls=calls):
             calls.append(len(xx)); return tabf[len(xx)]
-        r = guarded(S.sprt, lrf, float(al), float(be), x, ro)
+        r = sprt_call(S, lrf, float(al), float(be), x, ro)
         want = spec(lambda xx: tabf[len(xx)], float(al), float(be), x, ro)
         if INF_R in tab:
             ctx.count("table-with-infinite-ratio")
